@@ -702,4 +702,564 @@ theorem sUnpackInfo_refines {s : Bytes} {fs : List SFolder} {r : Bytes} (hi : In
       rw [e.1, e.2, h0']
       exact ⟨rfl, i7⟩
 
+/-! ### SubStreamsInfo: the SIZE section -/
+
+/-- at most one output stream of the folder is not bound to an input (the folder has one result) -/
+def OneOut (f : SFolder) : Prop :=
+  ∀ i j, i < f.unpackSizes.length → j < f.unpackSizes.length →
+    (!(f.bindpairs.any (fun p => p.2 = i))) = true → (!(f.bindpairs.any (fun p => p.2 = j))) = true → i = j
+
+/-- the folder's unpack size: py7zr looks for the LAST unbound output, the description for the FIRST; with one
+    result they are the same stream -/
+theorem folderOut_refines (f : SFolder) (t : Nat) (h1 : OneOut f) (h : folderOut f = .ok t) :
+    folderUnpackSize (folderOf f) = some t := by
+  unfold folderOut at h
+  cases hf : (List.range f.unpackSizes.length).find? (fun o => !(f.bindpairs.any (fun p => p.2 = o))) with
+  | none => simp [hf] at h
+  | some o =>
+    simp only [hf] at h
+    have ht : t = f.unpackSizes.getD o 0 := by cases h; rfl
+    have hpo : (!(f.bindpairs.any (fun p => p.2 = o))) = true := by
+      have := List.find?_some hf; simpa using this
+    have hmo : o < f.unpackSizes.length := by
+      have := List.mem_of_find?_eq_some hf; simpa using this
+    unfold folderUnpackSize
+    have hus : (folderOf f).unpacksizes = f.unpackSizes := rfl
+    have hbp : ∀ i, findOutBindPair (folderOf f) i = f.bindpairs.any (fun p => p.2 = i) := by
+      intro i; simp [findOutBindPair, folderOf]
+    simp only [hus, hbp]
+    cases hr : (List.range f.unpackSizes.length).reverse.find? (fun i => !(f.bindpairs.any (fun p => p.2 = i))) with
+    | none =>
+      have := List.find?_eq_none.mp hr o (by simp [hmo])
+      simp [hpo] at this
+    | some i =>
+      have hpi : (!(f.bindpairs.any (fun p => p.2 = i))) = true := by
+        have := List.find?_some hr; simpa using this
+      have hmi : i < f.unpackSizes.length := by
+        have := List.mem_of_find?_eq_some hr; simpa using this
+      have : i = o := h1 i o hmi hmo hpi hpo
+      subst this
+      simp only
+      rw [ht, List.getD_eq_getElem?_getD, List.getElem?_eq_getElem hmi]
+      rfl
+
+theorem sSubSizes_refines : ∀ (ns : List Nat) (fs : List SFolder) (s : Bytes) (out : List Nat) (r : Bytes), Inp s →
+    (∀ f ∈ fs, OneOut f) → sSubSizes ns fs s = .ok (out, r) →
+    readSubSizes ns (fs.map folderOf) s = .ok (out, r) ∧ Inp r
+  | [], _, s, out, r, hi, _, h => by
+    simp only [sSubSizes] at h
+    have e := SP.pure_inv h; simp at e
+    rw [e.1, e.2]; exact ⟨by simp [readSubSizes, pure, StateT.pure, Except.pure], hi⟩
+  | _ :: _, [], s, out, r, _, _, h => by
+    simp only [sSubSizes] at h
+    exact (SP.fail_inv h).elim
+  | n :: ns, f :: fs, s, out, r, hi, h1, h => by
+    simp only [sSubSizes] at h
+    simp only [List.map_cons, readSubSizes]
+    by_cases hn : n = 0
+    · simp only [hn, if_true] at h ⊢
+      exact sSubSizes_refines ns fs s out r hi (fun g hg => h1 g (List.mem_cons_of_mem _ hg)) h
+    · simp only [hn, if_false] at h ⊢
+      obtain ⟨explicit, s1, q1, k1⟩ := SP.bind_inv h
+      obtain ⟨g1, i1, _⟩ := sRepeat_refines (Q := Inp) (sNumber "sub-stream size") pNumber id
+        (fun s a r hq hh => sNumber_refines' hq hh) _ s explicit s1 hi q1
+      simp only [List.map_id] at g1
+      rw [P.bind_run g1]
+      cases hfo : folderOut f with
+      | error e => simp only [hfo] at k1; exact (SP.fail_inv k1).elim
+      | ok total =>
+        simp only [hfo] at k1
+        rw [folderOut_refines f total (h1 f (by simp)) hfo]
+        simp only
+        split at k1
+        · exact (SP.fail_inv k1).elim
+        · rename_i hsum
+          obtain ⟨rest, s2, q2, k2⟩ := SP.bind_inv k1
+          obtain ⟨g2, i2⟩ := sSubSizes_refines ns fs s1 rest s2 i1 (fun g hg => h1 g (List.mem_cons_of_mem _ hg)) q2
+          have e := SP.pure_inv k2; simp at e
+          have hneg : ¬ ((total : Int) - ((explicit.sum : Nat) : Int) < 0) := by omega
+          simp only [hneg, if_false]
+          rw [P.bind_run g2, e.1, e.2]
+          refine ⟨?_, i2⟩
+          have : ((total : Int) - ((explicit.sum : Nat) : Int)).toNat = total - explicit.sum := by omega
+          simp [this, pure, StateT.pure, Except.pure]
+
+/-! ### SubStreamsInfo as a whole (counts and sizes; the digests are read, their distribution is not compared) -/
+
+/-- explicit sizes cost bytes: the size section is at least as long as the number of explicit sizes -/
+theorem sSubSizes_consumes : ∀ (ns : List Nat) (fs : List SFolder) (s : Bytes) (out : List Nat) (r : Bytes), Inp s →
+    sSubSizes ns fs s = .ok (out, r) → r.length + (ns.map (fun n => n - 1)).sum ≤ s.length
+  | [], _, s, out, r, _, h => by
+    simp only [sSubSizes] at h
+    have e := SP.pure_inv h; simp at e
+    rw [e.2]; simp
+  | _ :: _, [], s, out, r, _, h => by
+    simp only [sSubSizes] at h
+    exact (SP.fail_inv h).elim
+  | n :: ns, f :: fs, s, out, r, hi, h => by
+    simp only [sSubSizes] at h
+    by_cases hn : n = 0
+    · simp only [hn, if_true] at h
+      have := sSubSizes_consumes ns fs s out r hi h
+      simp only [hn, List.map_cons, List.sum_cons]; omega
+    · simp only [hn, if_false] at h
+      obtain ⟨explicit, s1, q1, k1⟩ := SP.bind_inv h
+      obtain ⟨g1, i1, _⟩ := sRepeat_refines (Q := Inp) (sNumber "sub-stream size") pNumber id
+        (fun s a r hq hh => sNumber_refines' hq hh) _ s explicit s1 hi q1
+      have l1 := (repeatP_len pNumber (fun _ _ _ => pNumber_len) _ _ _ _ g1).2
+      cases hfo : folderOut f with
+      | error e => simp only [hfo] at k1; exact (SP.fail_inv k1).elim
+      | ok total =>
+        simp only [hfo] at k1
+        split at k1
+        · exact (SP.fail_inv k1).elim
+        · obtain ⟨rest, s2, q2, k2⟩ := SP.bind_inv k1
+          have ih := sSubSizes_consumes ns fs s1 rest s2 i1 q2
+          have e := SP.pure_inv k2; simp at e
+          rw [e.2]
+          simp only [List.map_cons, List.sum_cons]; omega
+
+theorem sum_le_of_all_le_one : ∀ (ns : List Nat), (ns.any (· > 1)) = false → ns.sum ≤ ns.length
+  | [], _ => by simp
+  | n :: ns, h => by
+    simp only [List.any_cons, Bool.or_eq_false_iff, decide_eq_false_iff_not] at h
+    have := sum_le_of_all_le_one ns h.2
+    simp only [List.sum_cons, List.length_cons]; omega
+
+theorem sum_le_pred_sum_add_length : ∀ (ns : List Nat), ns.sum ≤ (ns.map (fun n => n - 1)).sum + ns.length
+  | [] => by simp
+  | n :: ns => by
+    have := sum_le_pred_sum_add_length ns
+    simp only [List.sum_cons, List.map_cons, List.length_cons]; omega
+
+/-- where the description's digest distribution succeeds, py7zr's does (lengths are what can go wrong) -/
+theorem assignDigests_succeeds : ∀ (ns : List Nat) (fs : List SFolder) (cs : List (Option Nat)) (all : List (Option Nat))
+    (defined : List Bool) (crcs : List Nat), defined.length = cs.length → crcs.length = cs.length →
+    spreadCrcs ns fs cs = .ok all → ∃ dc, assignDigests ns (fs.map folderOf) defined crcs = some dc
+  | [], _, _, _, _, _, _, _, _ => ⟨([], []), by simp [assignDigests]⟩
+  | _ :: _, [], cs, all, _, _, _, _, h => by simp [spreadCrcs] at h
+  | n :: ns, f :: fs, cs, all, defined, crcs, hd, hc, h => by
+    simp only [spreadCrcs] at h
+    simp only [List.map_cons, assignDigests]
+    have hfo : ((folderOf f).digestdefined = true ∧ (folderOf f).crc.isSome = true) ↔ f.crc.isSome = true := by
+      simp [folderOf]
+    by_cases hb : n = 1 ∧ f.crc.isSome
+    · simp only [hb, and_self, if_true] at h
+      have hb' : n = 1 ∧ (folderOf f).digestdefined = true ∧ (folderOf f).crc.isSome = true := ⟨hb.1, hfo.mpr hb.2⟩
+      simp only [hb', and_self, if_true]
+      cases hr : spreadCrcs ns fs cs with
+      | error e => simp [hr, Except.map] at h
+      | ok rest =>
+        obtain ⟨dc, hdc⟩ := assignDigests_succeeds ns fs cs rest defined crcs hd hc hr
+        exact ⟨_, by rw [hdc]⟩
+    · simp only [hb, if_false] at h
+      have hb' : ¬ (n = 1 ∧ (folderOf f).digestdefined = true ∧ (folderOf f).crc.isSome = true) := by
+        intro x; exact hb ⟨x.1, hfo.mp x.2⟩
+      simp only [hb', if_false]
+      split at h
+      · simp at h
+      · rename_i hlen
+        cases hr : spreadCrcs ns fs (cs.drop n) with
+        | error e => simp [hr, Except.map] at h
+        | ok rest =>
+          obtain ⟨dc, hdc⟩ := assignDigests_succeeds ns fs (cs.drop n) rest (defined.drop n) (crcs.drop n)
+            (by simp [hd]) (by simp [hc]) hr
+          have : ¬ (defined.length < n ∨ crcs.length < n) := by omega
+          simp only [this, if_false]
+          exact ⟨_, by rw [hdc]⟩
+
+theorem map_folderOf_length (fs : List SFolder) : (fs.map folderOf).length = fs.length := by simp
+
+/-- the digest-count of py7zr and of the description are the same number -/
+theorem numDigests_eq (nums : List Nat) (fs : List SFolder) :
+    ((nums.zip (fs.map folderOf)).map (fun (n, f) => if n ≠ 1 ∨ !f.digestdefined then n else 0)).sum =
+    ((nums.zip fs).map (fun (n, f) => if n = 1 ∧ f.crc.isSome then 0 else n)).sum := by
+  induction nums generalizing fs with
+  | nil => simp
+  | cons n ns ih =>
+    cases fs with
+    | nil => simp
+    | cons f fs =>
+      simp only [List.map_cons, List.zip_cons_cons, List.sum_cons, ih fs]
+      congr 1
+      by_cases h1 : n = 1 <;> cases hc : f.crc <;> simp [folderOf, h1, hc]
+
+/-- py7zr keeps 0 for an undefined CRC where the description keeps nothing: same bytes consumed -/
+theorem zeroCrcs_of_optCrcs : ∀ (cs : List (Option Nat)) (t1 t2 : Bytes),
+    (cs.map (·.isSome)).mapM (fun d => if d then (do let c ← pFixed 4; pure (some c)) else (pure none : P (Option Nat))) t1 = .ok (cs, t2) →
+    (cs.map (·.isSome)).mapM (fun d => if d then pFixed 4 else (pure 0 : P Nat)) t1 = .ok (cs.map (·.getD 0), t2)
+  | [], t1, t2, h => by
+    simp only [List.map_nil, List.mapM_nil] at h ⊢
+    have e := P.pure_inv h; simp at e
+    rw [e]; rfl
+  | c :: cs, t1, t2, h => by
+    simp only [List.map_cons, List.mapM_cons] at h ⊢
+    obtain ⟨v, u1, b1, n1⟩ := P.bind_inv h
+    obtain ⟨rest, u2, b2, n2⟩ := P.bind_inv n1
+    have e2 := P.pure_inv n2; simp at e2
+    obtain ⟨⟨ev, erest⟩, eu⟩ := e2
+    have ih := zeroCrcs_of_optCrcs cs u1 u2 (by rw [← erest] at b2; exact b2)
+    cases c with
+    | none =>
+      simp only [Option.isSome_none, Bool.false_eq_true, if_false] at b1 ⊢
+      have e1' := P.pure_inv b1; simp at e1'
+      rw [P.bind_run (rfl : (pure 0 : P Nat) t1 = .ok (0, t1)), ← e1'.2, P.bind_run ih, eu]; rfl
+    | some x =>
+      simp only [Option.isSome_some, if_true] at b1 ⊢
+      obtain ⟨y, w1, c1, o1⟩ := P.bind_inv b1
+      have e1' := P.pure_inv o1; simp at e1'
+      have hy : y = x := by have := e1'.1; rw [← ev] at this; simpa using this.symm
+      rw [P.bind_run c1, ← e1'.2, P.bind_run ih, eu, hy]; rfl
+
+theorem sSubStreams_refines {total : Nat} {folders : List SFolder} {s : Bytes} {nums sizes : List Nat}
+    {crcs : List (Option Nat)} {r : Bytes} (hi : Inp s) (hst : s.length ≤ total) (h1 : ∀ f ∈ folders, OneOut f)
+    (h : sSubStreams folders s = .ok ((nums, sizes, crcs), r)) :
+    ∃ ss, readSubStreams total (folders.map folderOf) s = .ok (ss, r) ∧ ss.numUnpack = nums ∧
+      (ss.unpacksizes = some sizes ∨ (ss.unpacksizes = none ∧ nums.any (· > 1) = false)) ∧ Inp r := by
+  unfold sSubStreams at h
+  obtain ⟨id1, s1, q1, k1⟩ := SP.bind_inv h
+  have e1 := sByte_inv q1
+  have i1 : Inp s1 := by rw [e1] at hi; exact hi.tail
+  have ls1 : s1.length + 1 ≤ total := by rw [e1] at hst; simpa using hst
+  obtain ⟨np, s2, q2, k2⟩ := SP.bind_inv k1
+  obtain ⟨zp, s3, q3, k3⟩ := SP.bind_inv k2
+  simp only at k3
+  obtain ⟨cp, s4, q4, k4⟩ := SP.bind_inv k3
+  split at k4
+  · exact (SP.fail_inv k4).elim
+  rename_i hend
+  have hend' : cp.2 = 0 := by simpa using hend
+  cases hsp : spreadCrcs np.1 folders cp.1 with
+  | error e => simp only [hsp] at k4; exact (SP.fail_inv k4).elim
+  | ok all =>
+  simp only [hsp] at k4
+  have efin := SP.pure_inv k4; simp at efin
+  obtain ⟨⟨en, ez, _⟩, er⟩ := efin
+  -- the counts, and what the counts cost in bytes
+  have hnums : ∃ s2' id2, s2 = s2' ∧ np.2 = id2 ∧ np.1.length = folders.length ∧ Inp s2 ∧ s2.length ≤ s1.length ∧
+      ((id1 = 0x0D ∧ repeatP folders.length pNumber s1 = .ok (np.1, id2 :: s2) ∧ s2.length + 1 + folders.length ≤ s1.length) ∨
+       (id1 ≠ 0x0D ∧ np = (List.replicate folders.length 1, id1) ∧ s2 = s1)) := by
+    by_cases hD : id1 = 0x0D
+    · simp only [hD, if_true] at q2
+      obtain ⟨ns, t1, a1, m1⟩ := SP.bind_inv q2
+      obtain ⟨g, it1, l⟩ := sRepeat_refines (Q := Inp) (sNumber "NumUnpackStream") pNumber id
+        (fun s a r hq hh => sNumber_refines' hq hh) _ s1 ns t1 i1 a1
+      simp only [List.map_id] at g
+      have lc := (repeatP_len pNumber (fun _ _ _ => pNumber_len) _ _ _ _ g).2
+      obtain ⟨id2, t2, a2, m2⟩ := SP.bind_inv m1
+      have et := sByte_inv a2
+      have e := SP.pure_inv m2; simp at e
+      have it2 : Inp t2 := by rw [et] at it1; exact it1.tail
+      have ll : t2.length + 1 = t1.length := by rw [et]; simp
+      refine ⟨s2, id2, rfl, by rw [e.1], by rw [e.1]; exact l, by rw [e.2]; exact it2, by rw [e.2]; omega, Or.inl ⟨hD, ?_, by rw [e.2]; omega⟩⟩
+      rw [e.1, e.2, ← et]; exact g
+    · simp only [hD, if_false] at q2
+      have e := SP.pure_inv q2; simp at e
+      refine ⟨s2, id1, rfl, by rw [e.1], by rw [e.1]; simp, by rw [e.2]; exact i1, by rw [e.2]; omega, Or.inr ⟨hD, e.1, e.2⟩⟩
+  obtain ⟨_, id2, _, hid2, hnl, i2, l2, hnum⟩ := hnums
+  -- the sizes
+  have hsizes : ∃ zi, ((if some id2 = some 0x09 then (do
+        let s ← readSubSizes np.1 (folders.map folderOf)
+        let pid ← read1
+        pure (some s, pid)) else (pure (none, some id2) : P (Option (List Nat) × Option Nat))) s2 = .ok ((zi, some zp.2), s3)) ∧
+      (zi = some zp.1 ∨ (zi = none ∧ np.1.any (· > 1) = false)) ∧ Inp s3 ∧
+      np.1.sum ≤ s2.length + folders.length := by
+    rw [hid2] at q3
+    by_cases h9 : id2 = 0x09
+    · simp only [h9, if_true] at q3 ⊢
+      obtain ⟨sz, t1, a1, m1⟩ := SP.bind_inv q3
+      obtain ⟨g, it1⟩ := sSubSizes_refines np.1 folders s2 sz t1 i2 h1 a1
+      have lc := sSubSizes_consumes np.1 folders s2 sz t1 i2 a1
+      obtain ⟨id3, t2, a2, m2⟩ := SP.bind_inv m1
+      have et := sByte_inv a2
+      have e := SP.pure_inv m2; simp at e
+      have it2 : Inp t2 := by rw [et] at it1; exact it1.tail
+      refine ⟨some sz, ?_, Or.inl (by rw [e.1]), by rw [e.2]; exact it2, ?_⟩
+      · rw [P.bind_run g, et, P.bind_run (read1_cons id3 t2), e.1, e.2]; rfl
+      · have := sum_le_pred_sum_add_length np.1; omega
+    · have h9' : ¬ (some id2 = some 0x09) := by simpa using h9
+      simp only [h9, if_false] at q3
+      simp only [h9', if_false]
+      split at q3
+      · exact (SP.fail_inv q3).elim
+      rename_i hany
+      have hany' : np.1.any (· > 1) = false := by simpa using hany
+      cases hm : (np.1.zip folders).mapM (fun ((n, f) : Nat × SFolder) => if n = 0 then (Except.ok [] : Except String (List Nat)) else (folderOut f).map (fun t => [t])) with
+      | error e => simp only [hm] at q3; exact (SP.fail_inv q3).elim
+      | ok l =>
+        simp only [hm] at q3
+        have e := SP.pure_inv q3; simp at e
+        refine ⟨none, ?_, Or.inr ⟨rfl, hany'⟩, by rw [e.2]; exact i2, ?_⟩
+        · rw [e.1, e.2]; rfl
+        · have := sum_le_of_all_le_one np.1 hany'; omega
+  obtain ⟨zi, gz, hzrel, i3, hsum⟩ := hsizes
+  -- the digests
+  have hcrc : ∃ dd ds, ((if some zp.2 = some 0x0A then (do
+        let defined ← pBools ((np.1.zip (folders.map folderOf)).map (fun (n, f) => if n ≠ 1 ∨ !f.digestdefined then n else 0)).sum true
+        let crcs ← defined.mapM (fun d => if d then pFixed 4 else pure 0)
+        match assignDigests np.1 (folders.map folderOf) defined crcs with
+        | none => Impl.fail .malformed
+        | some (d, c) =>
+          let pid ← read1
+          pure (d, c, pid)) else (pure ([], [], some zp.2) : P (List Bool × List Nat × Option Nat))) s3 = .ok ((dd, ds, some cp.2), s4)) ∧ Inp s4 := by
+    rw [numDigests_eq]
+    by_cases hA : zp.2 = 0x0A
+    · simp only [hA, if_true] at q4 ⊢
+      obtain ⟨defined, t1, a1, m1⟩ := SP.bind_inv q4
+      obtain ⟨gd, it1, ld⟩ := sBoolList_refines' i3 a1
+      obtain ⟨cs, t2, a2, m2⟩ := SP.bind_inv m1
+      obtain ⟨gc0, it2, hdc⟩ := optCrcs_refine "sub-stream CRC" defined t1 cs t2 it1 a2
+      obtain ⟨id4, t3, a3, m3⟩ := SP.bind_inv m2
+      have et := sByte_inv a3
+      have e := SP.pure_inv m3; simp at e
+      have it3 : Inp t3 := by rw [et] at it2; exact it2.tail
+      -- py7zr keeps 0 for an undefined CRC where the description keeps nothing
+      have gc : defined.mapM (fun d => if d then pFixed 4 else (pure 0 : P Nat)) t1 = .ok (cs.map (·.getD 0), t2) := by
+        rw [hdc] at gc0 ⊢
+        exact zeroCrcs_of_optCrcs cs t1 t2 gc0
+      have hsp' : spreadCrcs np.1 folders cs = .ok all := by have := hsp; rw [e.1] at this; exact this
+      obtain ⟨dc, hdc'⟩ := assignDigests_succeeds np.1 folders cs all defined (cs.map (·.getD 0))
+        (by rw [hdc]; simp) (by simp) hsp'
+      obtain ⟨d, c⟩ := dc
+      refine ⟨d, c, ?_, by rw [e.2]; exact it3⟩
+      rw [P.bind_run gd, P.bind_run gc]
+      simp only [hdc']
+      rw [et, P.bind_run (read1_cons id4 t3), e.1, e.2]; rfl
+    · have hA' : ¬ (some zp.2 = some 0x0A) := by simpa using hA
+      simp only [hA, if_false] at q4
+      simp only [hA', if_false]
+      have e := SP.pure_inv q4; simp at e
+      exact ⟨[], [], by rw [e.1, e.2]; rfl, by rw [e.2]; exact i3⟩
+  obtain ⟨dd, ds, gc, i4⟩ := hcrc
+  -- assemble py7zr's run
+  unfold readSubStreams
+  simp only [map_folderOf_length]
+  rw [e1, P.bind_run (read1_cons id1 s1)]
+  have gN : ((if some id1 = some 0x0D then (do
+        let ns ← repeatP folders.length pNumber
+        if ns.sum > total * 8 then Impl.fail .bad7z else
+        let pid ← read1
+        pure (ns, pid)) else (pure (List.replicate folders.length 1, some id1) : P (List Nat × Option Nat))) s1 = .ok ((np.1, some id2), s2)) := by
+    rcases hnum with ⟨hD, g, lg⟩ | ⟨hD, enp, es2⟩
+    · simp only [hD, if_true]
+      rw [P.bind_run g]
+      have hguard : ¬ (np.1.sum > total * 8) := by omega
+      simp only [hguard, if_false]
+      rw [P.bind_run (read1_cons id2 s2)]; rfl
+    · have hD' : ¬ (some id1 = some 0x0D) := by simpa using hD
+      simp only [hD', if_false]
+      have : id2 = id1 := by rw [← hid2, enp]
+      rw [enp, es2, this]; rfl
+  rw [P.bind_run gN]
+  simp only
+  rw [P.bind_run gz]
+  simp only
+  simp only at gc
+  erw [P.bind_run gc]
+  simp only [hend', ne_eq, not_true_eq_false, if_false]
+  by_cases hde : dd.isEmpty
+  · simp only [hde, if_true]
+    refine ⟨_, by rw [er]; rfl, by rw [en], ?_, by rw [er]; exact i4⟩
+    show zi = some sizes ∨ (zi = none ∧ nums.any (· > 1) = false)
+    rw [ez, en]; exact hzrel
+  · simp only [hde, if_false]
+    refine ⟨_, by rw [er]; rfl, by rw [en], ?_, by rw [er]; exact i4⟩
+    show zi = some sizes ∨ (zi = none ∧ nums.any (· > 1) = false)
+    rw [ez, en]; exact hzrel
+
+/-! ### StreamsInfo -/
+
+theorem sStreams_refines {total : Nat} {s : Bytes} {ss : SStreams} {r : Bytes} (hi : Inp s) (hst : s.length ≤ total)
+    (hone : ∀ f ∈ ss.folders, OneOut f) (h : sStreams s = .ok (ss, r)) :
+    ∃ st, readStreams total s = .ok (st, r) ∧
+      (∀ sp, ss.pack = some sp → ∃ ip, st.packinfo = some ip ∧ ip.packpos = sp.packpos ∧ ip.packsizes = sp.sizes) ∧
+      (ss.pack = none → st.packinfo = none) ∧
+      st.folders.getD [] = ss.folders.map folderOf ∧
+      (∀ x, st.substreams = some x → x.numUnpack = ss.numUnpack ∧
+        (x.unpacksizes = some ss.subSizes ∨ (x.unpacksizes = none ∧ ss.numUnpack.any (· > 1) = false))) ∧
+      (st.substreams = none → ss.numUnpack = ss.folders.map (fun _ => 1)) ∧ Inp r := by
+  unfold sStreams at h
+  obtain ⟨id1, s1, q1, k1⟩ := SP.bind_inv h
+  have e1 := sByte_inv q1
+  have i1 : Inp s1 := by rw [e1] at hi; exact hi.tail
+  have l1 : s1.length ≤ total := by rw [e1] at hst; simp at hst; omega
+  obtain ⟨pp, s2, q2, k2⟩ := SP.bind_inv k1
+  obtain ⟨fp, s3, q3, k3⟩ := SP.bind_inv k2
+  obtain ⟨bp, s4, q4, k4⟩ := SP.bind_inv k3
+  obtain ⟨sub, id4⟩ := bp
+  simp only at k4
+  split at k4
+  · exact (SP.fail_inv k4).elim
+  rename_i hend
+  have hend' : id4 = 0 := by simpa using hend
+  have k5 : (match sub with
+      | some (nums, sizes, crcs) => (pure { pack := pp.1, folders := fp.1, numUnpack := nums, subSizes := sizes, subCrcs := crcs } : SP SStreams)
+      | none =>
+        match fp.1.mapM folderOut with
+        | .error e => sfail e
+        | .ok outs => pure { pack := pp.1, folders := fp.1, numUnpack := fp.1.map (fun _ => 1), subSizes := outs,
+                             subCrcs := fp.1.map (fun (x : SFolder) => x.crc) }) s4 = .ok (ss, r) := by
+    cases hpk1 : pp.1 with
+    | none =>
+      simp only [hpk1] at k4
+      split at k4
+      · exact (SP.fail_inv k4).elim
+      · exact k4
+    | some p =>
+      simp only [hpk1] at k4
+      split at k4
+      · exact (SP.fail_inv k4).elim
+      · exact k4
+  clear k4
+  -- PackInfo
+  have hP : ∃ ipo, ((if some id1 = some 0x06 then (do
+        let p ← readPackInfo
+        let pid ← read1
+        pure (some p, pid)) else (pure (none, some id1) : P (Option PackInfo × Option Nat))) s1 = .ok ((ipo, some pp.2), s2)) ∧
+      (∀ sp, pp.1 = some sp → ∃ ip, ipo = some ip ∧ ip.packpos = sp.packpos ∧ ip.packsizes = sp.sizes) ∧
+      (pp.1 = none → ipo = none) ∧ Inp s2 ∧ s2.length ≤ s1.length := by
+    by_cases h6 : id1 = 0x06
+    · simp only [h6, if_true] at q2 ⊢
+      obtain ⟨sp, t1, a1, m1⟩ := SP.bind_inv q2
+      obtain ⟨ip, g, c1, c2, _, it1⟩ := sPackInfo_refines' i1 a1
+      have lt1 := (readPackInfo_post g).2
+      obtain ⟨id2, t2, a2, m2⟩ := SP.bind_inv m1
+      have et := sByte_inv a2
+      have e := SP.pure_inv m2; simp at e
+      have it2 : Inp t2 := by rw [et] at it1; exact it1.tail
+      have lt2 : t2.length ≤ t1.length := by rw [et]; simp
+      refine ⟨some ip, ?_, ?_, ?_, by rw [e.2]; exact it2, by rw [e.2]; omega⟩
+      · rw [P.bind_run g, et, P.bind_run (read1_cons id2 t2), e.1, e.2]; rfl
+      · intro sp' hsp; rw [e.1] at hsp; simp at hsp; subst hsp; exact ⟨ip, rfl, c1, c2⟩
+      · intro hn; rw [e.1] at hn; simp at hn
+    · have h6' : ¬ (some id1 = some 0x06) := by simpa using h6
+      simp only [h6, if_false] at q2
+      simp only [h6', if_false]
+      have e := SP.pure_inv q2; simp at e
+      refine ⟨none, by rw [e.1, e.2]; rfl, ?_, fun _ => rfl, by rw [e.2]; exact i1, by rw [e.2]; omega⟩
+      intro sp' hsp; rw [e.1] at hsp; simp at hsp
+  obtain ⟨ipo, gP, hpk, hpn, i2, l2⟩ := hP
+  -- UnpackInfo
+  have hF : ∃ ifo, ((if some pp.2 = some 0x07 then (do
+        let f ← readUnpackInfo
+        let pid ← read1
+        pure (some f, pid)) else (pure (none, some pp.2) : P (Option (List Folder) × Option Nat))) s2 = .ok ((ifo, some fp.2.2), s3)) ∧
+      ifo.getD [] = fp.1.map folderOf ∧ (fp.2.1 = true → ifo = some (fp.1.map folderOf)) ∧ (fp.2.1 = false → ifo = none ∧ fp.1 = []) ∧
+      Inp s3 ∧ s3.length ≤ s2.length := by
+    by_cases h7 : pp.2 = 0x07
+    · simp only [h7, if_true] at q3 ⊢
+      obtain ⟨fs, t1, a1, m1⟩ := SP.bind_inv q3
+      obtain ⟨g, it1⟩ := sUnpackInfo_refines i2 a1
+      have lt1 := (readUnpackInfo_post g).2
+      obtain ⟨id2, t2, a2, m2⟩ := SP.bind_inv m1
+      have et := sByte_inv a2
+      have e := SP.pure_inv m2; simp at e
+      have it2 : Inp t2 := by rw [et] at it1; exact it1.tail
+      have lt2 : t2.length ≤ t1.length := by rw [et]; simp
+      refine ⟨some (fs.map folderOf), ?_, by simp [e.1], by intro _; simp [e.1], by intro hf; rw [e.1] at hf; simp at hf,
+        by rw [e.2]; exact it2, by rw [e.2]; omega⟩
+      rw [P.bind_run g, et, P.bind_run (read1_cons id2 t2), e.1, e.2]; rfl
+    · have h7' : ¬ (some pp.2 = some 0x07) := by simpa using h7
+      simp only [h7, if_false] at q3
+      simp only [h7', if_false]
+      have e := SP.pure_inv q3; simp at e
+      refine ⟨none, by rw [e.1, e.2]; rfl, by simp [e.1], by intro hf; rw [e.1] at hf; simp at hf, by intro _; simp [e.1],
+        by rw [e.2]; exact i2, by rw [e.2]; omega⟩
+  obtain ⟨ifo, gF, hfo, hft, hff, i3, l3⟩ := hF
+  -- what the final record is made of
+  have hfold : ss.folders = fp.1 ∧ ss.pack = pp.1 := by
+    cases hb : sub with
+    | some t =>
+      obtain ⟨nums, sizes, crcs⟩ := t
+      rw [hb] at k5
+      simp only at k5
+      have e := SP.pure_inv k5; simp at e
+      rw [e.1]; exact ⟨rfl, rfl⟩
+    | none =>
+      simp only [hb] at k5
+      cases hm : fp.1.mapM folderOut with
+      | error e => simp only [hm] at k5; exact (SP.fail_inv k5).elim
+      | ok outs =>
+        simp only [hm] at k5
+        have e := SP.pure_inv k5; simp at e
+        rw [e.1]; exact ⟨rfl, rfl⟩
+  -- SubStreamsInfo
+  have hS : ∃ iso, ((if some fp.2.2 = some 0x08 then
+        (match ifo with
+        | none => Impl.fail .bad7z
+        | some folders => (do
+          let s ← readSubStreams total folders
+          let pid ← read1
+          pure (some s, pid)))
+        else (pure (none, some fp.2.2) : P (Option SubStreams × Option Nat))) s3 = .ok ((iso, some id4), s4)) ∧
+      (∀ x, iso = some x → ∃ nums sizes crcs, sub = some (nums, sizes, crcs) ∧ x.numUnpack = nums ∧
+        (x.unpacksizes = some sizes ∨ (x.unpacksizes = none ∧ nums.any (· > 1) = false))) ∧
+      (iso = none → sub = none) ∧ Inp s4 := by
+    by_cases h8 : fp.2.2 = 0x08
+    · simp only [h8, if_true] at q4 ⊢
+      split at q4
+      · exact (SP.fail_inv q4).elim
+      rename_i hhas
+      have hhas' : fp.2.1 = true := by simpa using hhas
+      rw [hft hhas']
+      simp only
+      obtain ⟨t, t1, a1, m1⟩ := SP.bind_inv q4
+      obtain ⟨nums, sizes, crcs⟩ := t
+      obtain ⟨x, g, c1, c2, it1⟩ := sSubStreams_refines (total := total) i3 (by omega)
+        (fun f hf => hone f (by rw [hfold.1]; exact hf)) a1
+      obtain ⟨id2, t2, a2, m2⟩ := SP.bind_inv m1
+      have et := sByte_inv a2
+      have e := SP.pure_inv m2; simp at e
+      have it2 : Inp t2 := by rw [et] at it1; exact it1.tail
+      refine ⟨some x, ?_, ?_, by intro hx; simp at hx, by rw [e.2]; exact it2⟩
+      · rw [P.bind_run g, et, P.bind_run (read1_cons id2 t2), e.1.2, e.2]; rfl
+      · intro y hy; simp at hy; subst hy
+        exact ⟨nums, sizes, crcs, e.1.1, c1, c2⟩
+    · have h8' : ¬ (some fp.2.2 = some 0x08) := by simpa using h8
+      simp only [h8, if_false] at q4
+      simp only [h8', if_false]
+      have e := SP.pure_inv q4; simp at e
+      exact ⟨none, by rw [e.1.2, e.2]; rfl, by intro y hy; simp at hy, by intro _; exact e.1.1, by rw [e.2]; exact i3⟩
+  obtain ⟨iso, gS, hsx, hsn, i4⟩ := hS
+  -- assemble
+  unfold readStreams
+  rw [e1, P.bind_run (read1_cons id1 s1), P.bind_run gP]
+  simp only
+  rw [P.bind_run gF]
+  simp only
+  erw [P.bind_run gS]
+  simp only [hend', ne_eq, not_true_eq_false, if_false]
+  -- the strict reader's record
+  cases hb : sub with
+  | some t =>
+    obtain ⟨nums, sizes, crcs⟩ := t
+    simp only [hb] at k5
+    have e := SP.pure_inv k5; simp at e
+    refine ⟨_, by rw [e.2]; rfl, ?_, ?_, ?_, ?_, ?_, by rw [e.2]; exact i4⟩
+    · intro sp hsp; rw [e.1] at hsp; exact hpk sp hsp
+    · intro hn; rw [e.1] at hn; exact hpn hn
+    · rw [e.1]; exact hfo
+    · intro x hx
+      obtain ⟨n', z', c', hb', c1, c2⟩ := hsx x hx
+      rw [hb] at hb'; simp at hb'
+      rw [e.1]; simp only
+      rw [hb'.1, hb'.2.1]
+      exact ⟨c1, c2⟩
+    · intro hn; have := hsn hn; rw [hb] at this; simp at this
+  | none =>
+    simp only [hb] at k5
+    cases hm : fp.1.mapM folderOut with
+    | error e => simp only [hm] at k5; exact (SP.fail_inv k5).elim
+    | ok outs =>
+      simp only [hm] at k5
+      have e := SP.pure_inv k5; simp at e
+      refine ⟨_, by rw [e.2]; rfl, ?_, ?_, ?_, ?_, ?_, by rw [e.2]; exact i4⟩
+      · intro sp hsp; rw [e.1] at hsp; exact hpk sp hsp
+      · intro hn; rw [e.1] at hn; exact hpn hn
+      · rw [e.1]; exact hfo
+      · intro x hx
+        obtain ⟨n', z', c', hb', _⟩ := hsx x hx
+        rw [hb] at hb'; simp at hb'
+      · intro _; rw [e.1]
+
 end SevenZ
